@@ -393,6 +393,10 @@ def expansion_scenarios(run: Run, model: PyModel) -> None:
             continue
         for v, s in res:
             n += 1
+            if isinstance(v, Raised) and not s.imprecise and v.exc in ("TypeError", "AttributeError", "KeyError", "IndexError", "ValueError", "RecursionError"):
+                run.refuted("C15.R2" if refs is None else "C15.R1", "expand_saved_queries", f"{q!r} raises {v.exc}",
+                            f"expanding {q!r} dies with an internal {v.exc}" + (" instead of failing cleanly (the referenced page does not exist)" if refs is None else ""), file=FILE)
+                continue
             if isinstance(v, Raised) or s.imprecise:
                 run.undecided("C15.R1", "expand_saved_queries", f"{q!r}: " + (f"raises {v.exc}" if isinstance(v, Raised) else "; ".join(s.imprecise[:2])))
                 continue
